@@ -191,7 +191,11 @@ impl Property for C11 {
     }
     fn execute(&self, ops: &[Op]) -> anyhow::Result<Vec<Line>> {
         let mut guard = self.world.lock().unwrap();
-        if guard.is_none() {
+        // the two nodes are reused from case to case, but not for ever: the live actor's loop does not run
+        // here, so nothing reads the channel on which the replicas report their inserts to it (1024 places,
+        // one used per case and node)
+        if guard.as_ref().map(|w| w.doc_counter >= 400).unwrap_or(true) {
+            *guard = None;
             *guard = Some(Self::build_world()?);
         }
         let w = guard.as_mut().unwrap();
@@ -261,6 +265,9 @@ impl Property for C11 {
                         }
                     }
                 };
+                if std::env::var("VERIF_TRACE").is_ok() {
+                    eprintln!("c11 act {act}");
+                }
                 let t: Vec<&str> = act.split(' ').collect();
                 let n: usize = t[1].parse().unwrap();
                 let other = 1 - n;
